@@ -790,3 +790,40 @@ def format_value(v, conv, spec):
 def render_int(v, spec="", conv=None):
     """decimal rendering of a SymInt: concretises (forks on the model value)"""
     return format(v.__index__(), spec)
+
+
+def digits_value(digs, base):
+    """value of a digit sequence; digs: python ints or 8-bit BV terms holding digit values (< base).
+    Short all-symbolic numbers are accumulated in one bit-vector (a single BV2Int), long ones as a
+    linear integer sum over the few symbolic digits."""
+    import math
+    if all(isinstance(d, int) for d in digs):
+        v = 0
+        for d in digs:
+            v = v * base + d
+        return v
+    n = len(digs)
+    if n <= 16:
+        bits = int(math.ceil(n * math.log2(base))) + 2
+        bits = max(bits, 9)
+        acc = z3.BitVecVal(0, bits)
+        for d in digs:
+            if isinstance(d, int):
+                dz = z3.BitVecVal(d, bits)
+            elif d.size() < bits:
+                dz = z3.ZeroExt(bits - d.size(), d)
+            elif d.size() > bits:
+                dz = z3.Extract(bits - 1, 0, d)  # digit values are < base <= 36
+            else:
+                dz = d
+            acc = acc * base + dz
+        return mkint(z3.BV2Int(z3.simplify(acc)))
+    const = 0
+    terms = []
+    for i, d in enumerate(digs):
+        wgt = base ** (n - 1 - i)
+        if isinstance(d, int):
+            const += d * wgt
+        else:
+            terms.append(z3.BV2Int(z3.Extract(7, 0, d) if d.size() > 8 else d) * wgt)
+    return mkint(z3.Sum([z3.IntVal(const)] + terms))
